@@ -83,6 +83,13 @@ def run(ctx):
                 else:
                     new = lines[:pos] + stmt.split("\n") + lines[pos:]
                 cases.append(("\n".join(new) + "\n", kind))
+        # a program that declared its own mapping must not change what the next program of the process may address
+        for k in range(2 if tier == "quick" else 10):
+            lo = rng.randrange(0x70, 0x7a)
+            host = f".map identifier=1 bank_range=0x{lo:x},0x{lo + 3:x} addr_range=0x8000,0xffff mask=0x8000\n*=0x{lo + 1:02x}8000\n.db 1, 2\n"
+            at = len(cases) * (k + 1) // (3 if tier == "quick" else 11)
+            cases[at:at] = [(host, "none"), (f"*=0x{lo + 1:02x}8000\n.db 1\n", "unmapped-after-map-program"),
+                            (f"*=0x008000\nnop\n*=0x{lo + 2:02x}9000\nlda #1\n", "unmapped-code-after-map-program")]
         cli_budget = 40 if tier == "quick" else 600
         for src, kind in cases:
             base = impl.assemble(src, "low_rom", cwd=run_.tmp)
